@@ -75,31 +75,21 @@ def _jd(o):
 
 
 # ------------------------------------------------------------------ workers
-def _child(machine, seed, tier, idxs, wfd, t_end, run_timeout):
-    """Child process: run the indices assigned, stream results as JSON."""
-    w = os.fdopen(wfd, 'w')
-    for i in idxs:
-        if time.time() > t_end:
-            break
-        w.write(json.dumps({'start': i}) + '\n')
-        w.flush()
+EMPTY = {'violation': None, 'digest': '', 'steps': 0, 'sim_time': 0,
+         'faults': {}, 'probes': {}, 'seams': {}, 'features': [],
+         'tape': {}, 'nontrivial': False, 'nevents': 0}
+
+
+def _run_chain(machine, seed, tier, chunk):
+    """Execute the runs of a chunk one after the other in this process."""
+    out = []
+    for i in chunk:
         t0 = time.time()
-        empty = {'violation': None, 'digest': '', 'steps': 0, 'sim_time': 0,
-                 'faults': {}, 'probes': {}, 'seams': {}, 'features': [],
-                 'tape': {}, 'nontrivial': False, 'nevents': 0}
         try:
             rs, case = gen_case(machine, seed, tier, i)
-            # Every run executes in its own forked process: it starts from
-            # the same pristine (warmed-up) interpreter state whatever ran
-            # before it in this worker, so process-global state of the code
-            # under test cannot leak from one run into the next, and a run
-            # that takes the interpreter down or hangs costs only itself.
-            st, res = run_isolated(lambda: execute(machine, case, rs),
-                                   run_timeout)
-            if st == 'crash':
-                res = dict(empty, error=None, crashed=res)
+            res = execute(machine, case, rs)
         except Exception:      # noqa
-            res = dict(empty, error=traceback.format_exc(limit=8))
+            res = dict(EMPTY, error=traceback.format_exc(limit=8))
             rs, case = None, None
         res['index'] = i
         res['wall'] = round(time.time() - t0, 3)
@@ -110,15 +100,56 @@ def _child(machine, seed, tier, idxs, wfd, t_end, run_timeout):
             res.pop('tape', None)
         if i % 97 == 5 or i < 3:
             res['sample'] = case
+        out.append(res)
+    return out
+
+
+def _child(machine, seed, tier, idxs, wfd, t_end, run_timeout):
+    """Worker process: its run indices in chunks, every chunk in a forked
+    process of its own, results streamed to the parent as JSON lines.
+
+    A chunk starts from the same pristine (warmed-up) interpreter whatever
+    ran before it in this worker.  `machine.chunk` runs share one process
+    (1 = every run is hermetic; larger for machines whose runs cost
+    milliseconds, where one fork per run would dominate).  A violation that
+    needs the earlier runs of its chunk is confirmed and replayed as a
+    *chain* (see `check`)."""
+    w = os.fdopen(wfd, 'w')
+    size = max(1, int(getattr(machine, 'chunk', 1)))
+
+    def emit(res):
         try:
             line = json.dumps(res, default=_jd)
         except Exception:      # noqa
             traceback.print_exc()
-            line = json.dumps({'index': i, 'violation': None,
+            line = json.dumps({'index': res.get('index'), 'violation': None,
                                'error': 'result not serialisable: ' +
                                traceback.format_exc(limit=3)})
         w.write(line + '\n')
         w.flush()
+    for c in range(0, len(idxs), size):
+        if time.time() > t_end:
+            break
+        chunk = idxs[c:c + size]
+        w.write(json.dumps({'start': chunk[0]}) + '\n')
+        w.flush()
+        st, out = run_isolated(
+            lambda: _run_chain(machine, seed, tier, chunk),
+            run_timeout * len(chunk))
+        if st == 'ok':
+            for j, res in enumerate(out):
+                res['chain'] = chunk[:j + 1]
+                emit(res)
+            continue
+        # the chunk's process died or hung: every run of it on its own
+        for i in chunk:
+            st, out = run_isolated(
+                lambda: _run_chain(machine, seed, tier, [i]), run_timeout)
+            if st == 'ok':
+                out[0]['chain'] = [i]
+                emit(out[0])
+            else:
+                emit(dict(EMPTY, error=None, crashed=out, index=i))
     w.write('{"done": true}\n')
     w.flush()
     w.close()
@@ -256,6 +287,16 @@ def run_isolated(fn, timeout=300):
 CRASH_SIG = lambda pid: f'{pid}/crash/interpreter/run'      # noqa
 
 
+def chain_isolated(machine, seed, tier, indices, timeout=600):
+    """The runs `indices` one after the other in one forked process;
+    returns the result of the last one."""
+    st, out = run_isolated(lambda: _run_chain(machine, seed, tier, indices),
+                           timeout)
+    if st == 'crash':
+        return {'violation': None, 'error': f'crashed: {out}', 'digest': ''}
+    return out[-1]
+
+
 def execute_isolated(machine, case, seed, tape=None, strict=False,
                      timeout=300):
     """`execute` in a forked child (pristine interpreter state)."""
@@ -368,6 +409,21 @@ def write_crash_replay(machine, seed, index, case, how, outdir):
                          'op': 'run', 'signature': CRASH_SIG(machine.pid),
                          'detail': f'the code under test took the '
                          f'interpreter down or hung ({how})'}}
+    with open(path, 'w') as f:
+        json.dump(doc, f, indent=1, sort_keys=True, default=_jd)
+    return path
+
+
+def write_chain_replay(machine, seed, tier, indices, res, outdir):
+    os.makedirs(outdir, exist_ok=True)
+    path = os.path.join(outdir, f'replay-chain-{seed}-{indices[-1]}.json')
+    doc = {'property': machine.pid, 'engine': engine.ENGINE_VERSION,
+           'seed': seed, 'run': indices[-1],
+           'chain': {'verif_seed': seed, 'tier': tier, 'indices': indices},
+           'violation': res['violation'], 'trace_digest': res['digest'],
+           'minimised': False,
+           'note': 'the violation needs the listed runs to execute before '
+                   'it in the same process (state survives between runs)'}
     with open(path, 'w') as f:
         json.dump(doc, f, indent=1, sort_keys=True, default=_jd)
     return path
@@ -633,6 +689,24 @@ def _check(machine, tier, seed, log=print):
                                       budget_s=plan.get('shrink_s', 150),
                                       log=log)
         res = execute_isolated(machine, case, r['seed'], tape, strict)
+        if not _same(res, v['signature']) and len(r.get('chain', [])) > 1:
+            # not on its own: with the runs that preceded it in its process?
+            cres = chain_isolated(machine, seed, tier, r['chain'],
+                                  plan.get('run_timeout', 180) *
+                                  len(r['chain']))
+            if _same(cres, v['signature']):
+                path = write_chain_replay(machine, seed, tier, r['chain'],
+                                          cres, outdir)
+                okr, tail = replay_fresh(machine.pid, path)
+                if okr:
+                    nviol += 1
+                    lines.append(f"VIOLATION property={machine.pid} "
+                                 f"replay={path}")
+                    log(f"  run {r['index']} violates only after runs "
+                        f"{r['chain'][:-1]} in the same process (state "
+                        f"survives between runs): "
+                        f"{cres['violation']['detail'][:400]}")
+                    continue
         if not _same(res, v['signature']):
             errors.append(f"run {r['index']}: violation did not reproduce "
                           f"in-process after minimisation")
@@ -712,6 +786,25 @@ def _do_replay(machine, path, log=print):
         v = out.get('violation') if isinstance(out, dict) else None
         print(f"REPLAY-DIFFERS expected a crash, got "
               f"{v['signature'] if v else 'a clean run'}")
+        if v:
+            print(f"VIOLATION property={machine.pid} replay={path}")
+            return 1
+        return 0
+    if 'chain' in doc:
+        machine.warmup()
+        ch = doc['chain']
+        res = _run_chain(machine, ch['verif_seed'], ch['tier'],
+                         ch['indices'])[-1]
+        v = res.get('violation')
+        if v and v['signature'] == doc['violation']['signature']:
+            print(f"REPLAY-OK property={machine.pid} "
+                  f"signature={v['signature']} (chain of "
+                  f"{len(ch['indices'])} runs)")
+            print(f"  {v['detail'][:1500]}")
+            print(f"VIOLATION property={machine.pid} replay={path}")
+            return 1
+        print(f"REPLAY-DIFFERS expected={doc['violation']['signature']} "
+              f"got={v['signature'] if v else None}")
         if v:
             print(f"VIOLATION property={machine.pid} replay={path}")
             return 1
